@@ -147,6 +147,8 @@ namespace occa {
       if (buffer) delete buffer;
 
       buffer = makeBuffer();
+      // The pool owns its backing buffer: the device must not free it on its own
+      modeDevice->removeMemoryRef(buffer);
       buffer->malloc(alignedBytes);
       size = alignedBytes;
 
@@ -162,6 +164,8 @@ namespace occa {
       packing the space in the process
       */
       modeBuffer_t* newBuffer = makeBuffer();
+      // The pool owns its backing buffer: the device must not free it on its own
+      modeDevice->removeMemoryRef(newBuffer);
       newBuffer->malloc(alignedBytes);
 
       modeDevice->bytesAllocated += alignedBytes;
@@ -273,6 +277,8 @@ namespace occa {
 
       /*Make a new buffer*/
       modeBuffer_t* newBuffer = makeBuffer();
+      // The pool owns its backing buffer: the device must not free it on its own
+      modeDevice->removeMemoryRef(newBuffer);
       newBuffer->malloc(newReserved);
 
       modeDevice->bytesAllocated += newReserved;
